@@ -548,13 +548,19 @@ func (server *Server) listen(sock socket.Socket, address string, New NewServerCo
 			return svrctx, nil
 		}, func(context socket.Context) error {
 			svrctx := context.(*ServerContext)
+			svrctx.recving.Lock()
+			if atomic.LoadInt32(&svrctx.closed) != 0 {
+				// The connection has been torn down and its descriptor closed; the
+				// descriptor number may already belong to another connection.
+				svrctx.recving.Unlock()
+				return io.EOF
+			}
 			ctx := server.ctxPool.Get().(*Context)
 			ctx.upgrade = server.getUpgrade()
 			if server.bufferPool != nil {
 				ctx.buffer = server.bufferPool.GetBuffer(server.bufferSize)
 			}
 			ctx.codec = svrctx.codec
-			svrctx.recving.Lock()
 			data, err := svrctx.messages.ReadMessage(ctx.buffer)
 			if len(data) > 0 {
 				ctx.data = data
